@@ -143,6 +143,10 @@ type world struct {
 	open    map[string]bool // requests without a response yet (this epoch)
 	nreq    int
 	view    M // the last projection read (the driver aims its requests at what exists)
+	chars   map[string]bool // ids whose character sequence has been logged (for search patterns)
+	onReply map[string]func(res *t_api.Response) // follow-up actions of the driver (search traversals)
+	sortIds map[string]map[int64]string
+	meta    map[string]M // extra fields for the submit event of a request (traversal bookkeeping)
 }
 
 var allBackground = []string{"TimeoutPromises", "SchedulePromises", "TimeoutLocks", "EnqueueTasks", "TimeoutTasks"}
@@ -252,12 +256,19 @@ func (w *world) cursorId(kind string, sortId int64) string {
 	if kind == "schedule" {
 		tbl = "schedules"
 	}
+	if w.sortIds != nil {
+		if id, ok := w.sortIds[tbl][sortId]; ok {
+			return id
+		}
+	}
 	var id string
 	if err := w.obs.QueryRow("SELECT id FROM "+tbl+" WHERE sort_id = ?", sortId).Scan(&id); err != nil {
 		return fmt.Sprintf("?sort:%d", sortId)
 	}
 	return id
 }
+
+func (w *world) nextRid() string { return fmt.Sprintf("r%d", w.nreq+1) }
 
 // submit hands one request to the real api queue.
 func (w *world) submit(req *t_api.Request) string {
@@ -267,7 +278,17 @@ func (w *world) submit(req *t_api.Request) string {
 	kind, args := project.Request(req, w.cursorId)
 	w.reqKind[rid] = kind
 	w.open[rid] = true
-	w.tr.emit(M{"e": "submit", "t": w.now, "r": rid, "kind": kind, "args": args})
+	sub := M{"e": "submit", "t": w.now, "r": rid, "kind": kind, "args": args, "trav": "", "page": int64(0)}
+	if kind == "SearchPromises" || kind == "SearchSchedules" {
+		args["qc"] = split(args["q"].(string))
+	}
+	if m, ok := w.meta[rid]; ok {
+		for k, v := range m {
+			sub[k] = v
+		}
+		delete(w.meta, rid)
+	}
+	w.tr.emit(sub)
 	epoch := w.epoch
 	replies := 0
 	w.api.EnqueueSQE(&bus.SQE[t_api.Request, t_api.Response]{
@@ -293,6 +314,12 @@ func (w *world) submit(req *t_api.Request) string {
 				ev["body"] = project.Response(res, w.cursorId)
 			}
 			w.tr.emit(ev)
+			if f, ok := w.onReply[rid]; ok {
+				delete(w.onReply, rid)
+				if res != nil {
+					f(res)
+				}
+			}
 		},
 	})
 	return rid
@@ -680,7 +707,60 @@ type tracer struct {
 // (lossless: the validator substitutes the database it already knows).
 func (w *world) look(post M) M {
 	w.view = post
+	w.logChars(post)
+	w.learnSortIds()
 	return post
+}
+
+// learnSortIds remembers which row every sort id belongs to (cursors name sort ids; a row
+// may have been deleted by the time a reply carrying its sort id is rendered).
+func (w *world) learnSortIds() {
+	if w.sortIds == nil {
+		w.sortIds = map[string]map[int64]string{"promises": {}, "schedules": {}}
+	}
+	for tbl, m := range w.sortIds {
+		rows, err := w.obs.Query("SELECT id, sort_id FROM " + tbl)
+		if err != nil {
+			continue
+		}
+		for rows.Next() {
+			var id string
+			var n int64
+			if rows.Scan(&id, &n) == nil {
+				m[n] = id
+			}
+		}
+		rows.Close()
+	}
+}
+
+func split(s string) []any {
+	out := []any{}
+	for _, r := range s {
+		out = append(out, string(r))
+	}
+	return out
+}
+
+// logChars logs, once per id, the id as a sequence of characters: TLC has no substring
+// operations on strings, the id pattern matcher of the specification works on sequences.
+func (w *world) logChars(post M) {
+	if w.chars == nil {
+		w.chars = map[string]bool{}
+	}
+	ids := M{}
+	for _, tb := range []string{"promises", "schedules"} {
+		t, _ := post[tb].(M)
+		for id := range t {
+			if !w.chars[id] {
+				w.chars[id] = true
+				ids[id] = split(id)
+			}
+		}
+	}
+	if len(ids) > 0 {
+		w.tr.emit(M{"e": "chars", "t": w.now, "ids": ids})
+	}
 }
 
 func (t *tracer) withPost(ev M, post M) M {
